@@ -242,6 +242,19 @@ class Inference:
                     tmpl = ast.Constant(tv) if tv is not None else tmpl
                 if isinstance(tmpl, ast.Constant) and isinstance(tmpl.value, str):
                     return self._strformat(tmpl.value, e, fi, depth, text)
+            callee = self._helper(e, fi)
+            if callee is not None:
+                # a helper of the package that builds (part of) the text: every value it can return, judged in its
+                # own body (its parameters are decided from all its call sites)
+                rets = [n for n in walk_own(callee.node) if isinstance(n, ast.Return)]
+                if rets and not callee.is_generator:
+                    for r in rets:
+                        if r.value is None:
+                            continue
+                        p = self.classify(r.value, callee, depth + 1)
+                        if p:
+                            return p
+                    return None
             return f"unknown: {text}"
         if isinstance(e, ast.ListComp) or isinstance(e, ast.List):
             return f"unknown: {text}"
@@ -274,6 +287,20 @@ class Inference:
         if isinstance(e, ast.Name):
             return self.classify_name(e.id, fi, depth)
         return f"unknown: {text}"
+
+    def _helper(self, call: ast.Call, fi: FuncInfo) -> Optional[FuncInfo]:
+        f = call.func
+        if isinstance(f, ast.Name):
+            g = fi.module.functions.get(f.id)
+            if g is not None:
+                return g
+            for q, cand in self.model.functions.items():
+                if cand.cls is None and cand.name == f.id and f.id in getattr(fi.module, "imports", {}):
+                    return cand
+            return None
+        if isinstance(f, ast.Attribute) and isinstance(f.value, ast.Name) and f.value.id in ("self", "cls") and fi.cls is not None:
+            return fi.cls.find_method(f.attr)
+        return None
 
     def _const_of(self, name: str, fi: FuncInfo) -> Optional[str]:
         """The string constant a module-level name (never rebound) or a single-assignment local stands for."""
@@ -405,7 +432,12 @@ class Inference:
                     if isinstance(t, ast.Name) and t.id == name:
                         vals.append(n.value)
                     elif isinstance(t, (ast.Tuple, ast.List)) and any(isinstance(x, ast.Name) and x.id == name for x in ast.walk(t)):
-                        opaque = True
+                        # `a, b = x, y`: the component assigned to the name, when both sides are flat tuples
+                        v_ = n.value
+                        if isinstance(v_, (ast.Tuple, ast.List)) and len(v_.elts) == len(t.elts) and not any(isinstance(x, ast.Starred) for x in list(t.elts) + list(v_.elts)) and all(isinstance(x, ast.Name) for x in t.elts):
+                            vals += [ve for te, ve in zip(t.elts, v_.elts) if te.id == name]
+                        else:
+                            opaque = True
             elif isinstance(n, ast.AnnAssign) and isinstance(n.target, ast.Name) and n.target.id == name and n.value is not None:
                 vals.append(n.value)
             elif isinstance(n, (ast.For, ast.comprehension)) and any(isinstance(x, ast.Name) and x.id == name for x in ast.walk(n.target)):
